@@ -59,9 +59,7 @@ def mutate(rng, cs, other, is_bytes):
         return cs
     i = rng.randrange(n + 1)
     ch = rng.choice([97, 48, 32, 47])
-    # a run of 65536 DIGITS costs the model minutes (unbounded Z arithmetic on the digit run is quadratic): digit runs stop
-    # at 5000 here; one 65536-digit version runs on the implementation only (see the fixed cases)
-    return cs[:i] + [ch] * rng.choice([300, 5000, 65536] if ch != 48 else [300, 5000]) + cs[i:]
+    return cs[:i] + [ch] * rng.choice([300, 5000, 65536]) + cs[i:]
 
 
 def generate(rng, tier):
@@ -114,7 +112,9 @@ def generate(rng, tier):
         cases.append(Case("dewey.match", [enc(pat), enc(nm)], meta={"nt": True, "src": "big"}))
     cases.append(Case("pat.best", [enc("p-[0-9]*"), enc("p-" + "9" * 20), enc("p-alpha")], meta={"nt": True, "src": "big"}))
     cases.append(Case("pat.best", [enc("p-[0-9]*"), enc("p-1.rc"), enc("p-1." + "9" * 25)], meta={"nt": True, "src": "big"}))
-    cases.append(Case("pat.match", [enc("p<3" + "0" * 65536 + "rc1"), enc("p-3" + "1" * 65536)], mop="", meta={"nt": True, "src": "big"}))
+    cases.append(Case("pat.match", [enc("p<3" + "0" * 65536 + "rc1"), enc("p-3" + "1" * 65536)], meta={"nt": True, "src": "big"}))
+    cases.append(Case("pat.match", [enc("p>=1nb" + "7" * 100000), enc("p-1nb" + "8" * 100000)], meta={"nt": True, "src": "big"}))
+    cases.append(Case("sum.parse", [enc("SIZE_PKG=-" + "0" * 100000 + "5\n")], meta={"nt": True, "src": "big"}))
     cases.append(Case("pat.match", [enc("p<3" + "0" * 4000 + "rc1"), enc("p-3" + "1" * 4000)], meta={"nt": True, "src": "big"}))
     cases.append(Case("pl.parse", [enc(b"@name " + b"x" * 70000 + b"\n" + b" " * 70000)], meta={"nt": True, "src": "big"}))
     cases.append(Case("di.parse", [enc(b"SHA1 (" + b"n" * 70000 + b") = " + b"a" * 70000)], meta={"nt": True, "src": "big"}))
